@@ -86,8 +86,13 @@ def install():
                         d, co, view(s).tolist(), s.common, exp.tolist(), old["commons"][d])
         return True
 
+    def multi_axis(self):
+        # C13 quantifies over dimension lists with at least one multi-axis dimension; the library also calls product()
+        # on every all-1-D (sub-)cube, where it is the single empty combination - those calls are passed through
+        return any(len(d.shape) > 1 for d in self.dims)
+
     CM.ccube.product = wrap(c_listed, Contract(
-        "ccubes.ccube.product", old=c_old,
+        "ccubes.ccube.product", requires=multi_axis, old=c_old,
         describe=lambda old, self: {"cube": "ccube", "dims": [describe(d) for d in self.dims], "interacting_shape": list(self.interacting_shape)},
         classify=lambda old, self: {"cube": "ccube", "extra_extents": list(self.scaffold_shape)},
         ensures=[("ensures-each-coordinate-combination-exactly-once", c_once),
@@ -124,7 +129,7 @@ def install():
         return True if got == want else "combinations come as %r, documented order (first coordinate outermost) is %r" % (got, want)
 
     XM.xcube.product = property(wrap(x_listed, Contract(
-        "xcubes.xcube.product",
+        "xcubes.xcube.product", requires=multi_axis,
         describe=lambda old, self: {"cube": "xcube", "dims": [np.asarray(d).tolist() for d in self.dims],
                                     "interacting_shape": [int(e) for e in self.interacting_shape]},
         classify=lambda old, self: {"cube": "xcube", "extra_extents": list(self.scaffold_shape)},
@@ -236,13 +241,18 @@ def structures(max_dims=3, extents=(1, 2, 3, 4), max_multi=2):
                     st.append(tuple(ext[p:p + a]))
                     p += a
                 out.append(st)
-    return out
+    return out + EQUAL_EXTENT_LISTS
+
+
+# also inside the property's quantifier: several extra axes of EQUAL extent - there a transposed block does not fall outside
+# the result (no IndexError), so only the block equation can notice it
+EQUAL_EXTENT_LISTS = [[(2,), (2,)], [(3,), (3,)], [(2, 2)], [(3, 3)], [(2,), (), (2,)], [(2, 2), (3,)], [(2,), (3, 2)], [(), (3,), (3,)]]
 
 
 def scopes(tier):
     if tier == "thorough":
-        return dict(Ns=(1, 2, 3), q=4, cap=128, K=8, cc=(3, 8), xc=(3, 8, 4), Emax=3, inferred=True)
-    return dict(Ns=(1, 2, 3), q=2, cap=16, K=3, cc=(2, 5), xc=(2, 5, 3), Emax=3, inferred=True)
+        return dict(Ns=(1, 2, 3), q=3, cap=128, K=6, cc=(2, 6), xc=(2, 6, 3), Emax=3, inferred=True)
+    return dict(Ns=(1, 2, 3), q=2, cap=16, K=2, cc=(1, 4), xc=(1, 4, 2), Emax=3, inferred=True)
 
 
 def jobs(tier, seed):
